@@ -351,9 +351,10 @@ func roundtripReplay(args []string) {
 			got = append(got, env.projectPatch(p))
 		}
 
+		// (which patches a document is split into is the mechanism, not the statement: what counts is that they
+		// are valid and reproduce the document, checked below)
 		if !reflect.DeepEqual(patchSetKey(got), patchSetKey(dl.Patches)) {
-			fail("derived-patches", "", dl.Patches, got)
-			return
+			col.beyond("derived-patches", "the document is split into other patches than pinned", dl, dl.Patches, got)
 		}
 
 		for _, p := range patches {
